@@ -100,7 +100,26 @@ func (m *tkMod) initGenesis(e *lib.Env) lib.Outcome {
 	gs := tokenv1.GenesisState{Params: tkGo(m.p)}
 	return e.Try(func(ctx sdk.Context) error { token.InitGenesis(ctx, *m.k[e], gs); return nil })
 }
+func (m *tkMod) genesisStages(e *lib.Env) (int, int) {
+	gs := tokenv1.GenesisState{Params: tkGo(m.p)}
+	vg, _ := errCode(func() error { return tokenv1.ValidateGenesis(gs) })
+	cctx, _ := e.Ctx.CacheContext()
+	sp, _ := errCode(func() error { return m.k[e].SetParams(cctx, gs.Params) })
+	return vg, sp
+}
 func (m *tkMod) stored(e *lib.Env) string { return tkTerm(m.k[e].GetParams(e.Ctx)) }
+
+// feeToken: scale of the token named by the stored base fee's denom and the payer's balance in its min unit
+// (scale 0 / the stake balance when that token does not exist: the model rejects before using them).
+func (m *tkMod) feeToken(e *lib.Env) (int64, sdkmath.Int) {
+	fee := m.k[e].GetParams(e.Ctx).IssueTokenBaseFee
+	if sdk.ValidateDenom(fee.Denom) == nil {
+		if t, err := m.k[e].GetToken(e.Ctx, fee.Denom); err == nil {
+			return int64(t.GetScale()), e.Balance(e.Actors[0], t.GetMinUnit())
+		}
+	}
+	return 0, e.Balance(e.Actors[0], "stake")
+}
 
 // feeFactor restates keeper.calcFeeFactor (unexported): (ln(len)/ln 3)^4 printed with 2 decimals.
 func feeFactor(symbol string) *big.Int {
@@ -126,7 +145,8 @@ func (m *tkMod) op(e *lib.Env, st Step) (string, lib.Outcome) {
 		extra := int(bi(st.N[0]).Int64())
 		m.n[e]++
 		sym := tkSymbol(m.n[e], extra)
-		term := lib.App("TkIssue", lib.ZB(feeFactor(sym)), lib.ZI(e.Balance(a0, "stake")))
+		scale, feeBal := m.feeToken(e)
+		term := lib.App("TkIssue", lib.ZB(feeFactor(sym)), lib.Z(scale), lib.ZI(feeBal))
 		out := e.Deliver(&tokenv1.MsgIssueToken{Symbol: sym, Name: "n" + sym, Scale: 6, MinUnit: "u" + sym,
 			InitialSupply: 1000, MaxSupply: 1000000000, Mintable: true, Owner: a0.String()})
 		return term, out
@@ -145,7 +165,8 @@ func (m *tkMod) op(e *lib.Env, st Step) (string, lib.Outcome) {
 			out := e.Deliver(&tokenv1.MsgMintToken{Coin: sdk.NewCoin("ukaaq", sdkmath.NewIntFromBigInt(bi(st.N[0]))), Owner: a0.String()})
 			return "TkOther", out
 		}
-		term := lib.App("TkMint", lib.ZB(feeFactor(sym)), lib.ZI(e.Balance(a0, "stake")))
+		scale, feeBal := m.feeToken(e)
+		term := lib.App("TkMint", lib.ZB(feeFactor(sym)), lib.Z(scale), lib.ZI(feeBal))
 		if tok, err := k.GetToken(e.Ctx, sym); err != nil || !tok.GetOwner().Equals(a0) {
 			term = "TkOther" // ownership was transferred away: the mint is rejected before any fee is computed
 		}
